@@ -107,6 +107,16 @@ impl Visitor<Diagnostic> for SymbolTable<'_, Id, DummyNode> {
         ret
     }
 
+    fn visit_program_configuration(
+        &mut self,
+        _node: &ironplc_dsl::configuration::ProgramConfiguration,
+    ) -> Result<(), Diagnostic> {
+        // The connections of a program configuration name variables of the program's
+        // interface (not variables of the configuration), so there is nothing in
+        // scope here to check them against.
+        Ok(())
+    }
+
     fn visit_var_decl(&mut self, node: &VarDecl) -> Result<Self::Value, Diagnostic> {
         self.add_if(node.identifier.symbolic_id(), DummyNode {});
         node.recurse_visit(self)
